@@ -189,6 +189,14 @@ def gen_expressions(tier):
         exprs.append(([('msg', None, o, n, ([], [it]))], []))
     exprs.append(([('msg', None, ('idgen', 7, 2), '*', ([], [excl[0], excl[2]]))], []))
     exprs.append(([('star',)], [('msg', None, None, 'motion', ([], [excl[1]]))]))
+    # alternatives that READ alike and mean different things - the number 7 and the text "7", the label pressed and the text "pressed" - in one
+    # bracket list, as two patterns, and as exclusions: each alternative counts (in both tiers, not thinned)
+    look = [((None, ('int', 7)), (None, ('str', '7'))), ((None, ('label', 'pressed')), (None, ('str', 'pressed'))), (('x', ('int', 0)), ('x', ('str', '0')))]
+    for a, b in look:
+        for first, second in ((a, b), (b, a)):
+            exprs.append(([('msg', None, None, 'motion', ([('list', [first, second], [])], []))], []))
+            exprs.append(([('msg', None, None, 'motion', ([first], [])), ('msg', None, None, 'motion', ([second], []))], []))
+            exprs.append(([('star',)], [('msg', None, None, 'motion', ([first], [])), ('msg', None, None, 'motion', ([second], []))]))
     return exprs
 
 
@@ -289,6 +297,23 @@ def _build_message(ctx, e, max_args):
     return wl.message.MockMessage(0.0, tgt, ctx.choose([True, False], 'sent') if False else True, name, tuple(args), destroyed)
 
 
+def _warmup_messages(msg):
+    """concrete messages a matcher may have been asked about earlier in a session: every type of the pool as target, object argument and nil type,
+    labelled and plain integers, strings, on the message's own connection and on another one"""
+    from core import wl
+    MO = wl.object.MockObject
+    out = []
+    for k, t in enumerate(TYPES[:4]):
+        conn = msg.obj.connection if k % 2 == 0 else _Conn('Q')
+        a_int = wl.Arg.Int(k)
+        a_int.labels = ['pressed'] if k % 2 else []
+        args = [wl.Arg.Null(t), wl.Arg.Object(MO(conn, 0.0, 40 + k, k, t), k % 2 == 1), a_int, wl.Arg.String('warm %d' % k), wl.Arg.Float(k + 0.5)]
+        for j, a in enumerate(args):
+            a.name = ['x', 'y', 'serial', 'states', None][(j + k) % 5]
+        out.append(wl.message.MockMessage(0.0, MO(conn, 0.0, 30 + k, 0, t), True, NAMES[k % len(NAMES)], tuple(args), MO(conn, 0.0, 50, 1, t) if k == 3 else None))
+    return out
+
+
 def expression(ctx, case):
     import logging
     logging.disable(logging.CRITICAL)
@@ -320,6 +345,13 @@ def expression(ctx, case):
             if label == 'parse(text)' and _has_const_item(e):
                 continue      # unsimplified argument lists with constant items: documented don't-care (see L1)
             ctx.check('%s of `%s` selects the message iff the documented meaning says so' % (label, text), R.b_not(mustnot) if got else R.b_not(must))
+            # matching is a function of the matcher text and the message alone: the same matcher after it has looked at other messages (a filter in
+            # the middle of a session, `list` over a long history) answers as a freshly parsed one does - also where the documentation leaves the answer open
+            warm = matcher.parse(text).simplify()
+            for wm in _warmup_messages(msg):
+                warm.matches(wm)
+            got2 = bool(warm.matches(msg))
+            ctx.check('the verdict of `%s` on a message does not depend on the messages the matcher has seen before' % text, got2 == got)
         ctx.note('expression', text)
     finally:
         for k, v in saved.items():
